@@ -25,7 +25,7 @@ func init() {
 	core.Register(&core.Prop{
 		ID:       "C01",
 		Title:    "SyncRing is a linearizable bounded MPMC FIFO queue",
-		Quick:    3000,
+		Quick:    1500,
 		Thorough: 50000,
 		Gen:      gen,
 		Corpus:   corpus,
